@@ -65,3 +65,5 @@ pub assume_specification<T>[ Option::<T>::xor ](a: Option<T>, b: Option<T>) -> (
     ensures r == (if a is Some && b is None { a } else if a is None && b is Some { b } else { None::<T> });
 pub assume_specification<T>[ bool::then_some::<T> ](b: bool, t: T) -> (r: Option<T>)
     ensures r == (if b { Some(t) } else { None::<T> });
+pub assume_specification<T, E>[ Result::<T, E>::unwrap_or ](a: Result<T, E>, d: T) -> (r: T)
+    ensures r == (match a { Ok(v) => v, Err(_) => d });
